@@ -1,4 +1,6 @@
 """C09 — BIP32: public/private derivation commute, paths compose, keys serialise, invalid payloads rejected."""
+import hashlib
+
 from hypothesis import strategies as st
 
 from vf import gen
@@ -133,13 +135,27 @@ def check_derive(case):
     xp = attempt(whd.get_xpub, want.string())
     d = _diff(xp, want.neuter().string())
     f.expect(d is None, f"derive/get_xpub-ne-reference/{d}", f"path {path}: {xp!r} want {want.neuter().string()!r}")
+    # get_xpub of an xpub is that xpub (docstring); no scalar multiplication involved
+    xp2 = attempt(whd.get_xpub, want.neuter().string())
+    d = _diff(xp2, want.neuter().string())
+    f.expect(d is None, f"derive/get_xpub-of-xpub-ne-input/{d}", f"{xp2!r} want {want.neuter().string()!r}")
     return cls, f
+
+
+def _h(b, n=32):
+    """Diffuse a (typically simple) Hypothesis draw into n <= 64 bytes of full-width material; deterministic."""
+    return hashlib.sha512(b"C09/" + b).digest()[:n]
+
+
+def material(n):
+    return st.binary(max_size=6).map(lambda b: _h(b, n))
 
 
 def seeds():
     return st.one_of(
         st.sampled_from([16, 32, 64]).flatmap(lambda n: st.binary(min_size=n, max_size=n)),
         st.binary(min_size=16, max_size=64),
+        st.integers(16, 64).flatmap(material),
     ).map(hx)
 
 
@@ -259,13 +275,15 @@ def _check_commute_func(case):
 
 
 def keys():
-    """Private keys in [1, n-1]: boundary / short scalars and (two thirds) full-width uniform ones."""
-    full = st.binary(min_size=32, max_size=32).map(lambda b: int.from_bytes(b, "big") % (ec.N - 1) + 1)
+    """Private keys in [1, n-1]: boundary / short scalars and (two thirds) full-width ones."""
+    full = material(32).map(lambda b: int.from_bytes(b, "big") % (ec.N - 1) + 1)
     return st.one_of(gen.scalars_valid(), full, full)
 
 
 def chaincodes():
-    return st.one_of(st.binary(min_size=32, max_size=32), st.sampled_from([b"\x00" * 32, b"\xff" * 32, b"\x00" * 31 + b"\x01"])).map(hx)
+    return st.one_of(
+        material(32), material(32), st.binary(min_size=32, max_size=32), st.sampled_from([b"\x00" * 32, b"\xff" * 32, b"\x00" * 31 + b"\x01"])
+    ).map(hx)
 
 
 @st.composite
@@ -450,7 +468,7 @@ def xkey_fields(draw):
     if depth == 0:
         fp, child = b"\x00" * 4, 0
     else:
-        fp = draw(st.one_of(st.binary(min_size=4, max_size=4), st.just(b"\x00" * 4)))
+        fp = draw(st.one_of(material(4), st.binary(min_size=4, max_size=4), st.just(b"\x00" * 4)))
         child = draw(indices())
     return {
         "kind": draw(st.sampled_from(["prv", "pub"])),
@@ -601,21 +619,21 @@ def targets(tier):
             "derive",
             check_derive,
             strategy=derive_cases,
-            budget={"quick": 160, "thorough": 4000},
+            budget={"quick": 160, "thorough": 3200},
             required=["nt:mixed-hardened-plain", "nt:idx-max-plain", "nt:idx-min-hardened", "nt:idx-max-hardened", "net:main", "net:test", "depth-0", "all-plain", "all-hardened"],
         ),
         Target(
             "commute",
             check_commute,
             strategy=lambda tier: commute_cases(tier),
-            budget={"quick": 224, "thorough": 5000},
+            budget={"quick": 224, "thorough": 4000},
             required=["nt:pub-vs-priv", "nt:hardened-from-public", "nt:plain-index", "nt:hardened-index", "nt:start-non-root", "start-root"],
         ),
         Target(
             "compose",
             check_compose,
             strategy=lambda tier: compose_cases(tier),
-            budget={"quick": 80, "thorough": 1600},
+            budget={"quick": 80, "thorough": 1200},
             required=["mode:pub", "mode:prv", "nt:split-inner", "nt:split-empty-prefix", "nt:split-empty-suffix", "nt:start-non-root", "start-root"],
         ),
         Target(
